@@ -393,9 +393,11 @@ pub fn c17_numbers(tier: Tier) -> Vec<u64> {
 pub fn c17(tier: Tier, report: &mut Report) {
     let nums = c17_numbers(tier);
     let suffixes = ["st", "nd", "rd", "th"];
+    // frames: alone, mid-sentence, behind multi-byte text, and next to other numbers (a plain
+    // number before it, correct ordinals before it, a number after it)
     let frames: Vec<(&str, &str)> = tier.pick(
-        vec![("The ", " item."), ("", ""), ("É😀 ", "!")],
-        vec![("The ", " item."), ("", ""), ("On the ", ", we left."), ("É😀 ", "!")],
+        vec![("The ", " item."), ("", ""), ("É😀 ", "!"), ("In 2024 the ", " item of 3."), ("The 1st, 22nd and ", " ones.")],
+        vec![("The ", " item."), ("", ""), ("On the ", ", we left."), ("É😀 ", "!"), ("In 2024 the ", " item of 3."), ("The 1st, 22nd and ", " ones."), ("5 or 6.5, the ", " of 0x1F")],
     );
     let curated = FstDictionary::curated();
     let n = nums.len() as u64;
@@ -668,4 +670,31 @@ pub fn c18(tier: Tier, report: &mut Report) {
     report.set("unicode_letter_cases", nchar);
     report.sample(json!({"engine":"E1","text": "the iPhone and o’clock: x-ray"}));
     report.sample(json!({"engine":"E1","text": seeds.get(700).cloned().unwrap_or_default()}));
+}
+
+pub fn replay_c13(case: &Value) -> Vec<(String, Value)> {
+    if let Some(spans) = case["spans"].as_array() {
+        let input: Vec<Lint> = spans.iter().enumerate().map(|(i, s)| mk_lint(s[0].as_u64().unwrap_or(0) as usize, s[1].as_u64().unwrap_or(0) as usize, i)).collect();
+        let mut out = input.clone();
+        if catch(|| remove_overlaps(&mut out)).is_err() {
+            return vec![("synthetic:panic".into(), json!({}))];
+        }
+        let text: Vec<char> = "abcdefgh".chars().collect();
+        return check_overlap_result(&input, &out).or_else(|| check_one_pass_fix(&text, &out)).into_iter().collect();
+    }
+    if let Some(text) = case["text"].as_str() {
+        let curated = FstDictionary::curated();
+        let mut g = crate::sweep::all_on(Dialect::American, curated);
+        let doc = Document::new_plain_english_curated(text);
+        let lints = g.lint(&doc);
+        let mut out = lints.clone();
+        remove_overlaps(&mut out);
+        return check_overlap_result(&lints, &out).or_else(|| check_one_pass_fix(&s2c(text), &out)).into_iter().collect();
+    }
+    vec![("bad-replay-file".into(), json!({}))]
+}
+
+pub fn replay_c18(case: &Value) -> Vec<(String, Value)> {
+    let Some(text) = case["text"].as_str() else { return vec![("bad-replay-file".into(), json!({}))] };
+    check_title_case(text, &FstDictionary::curated()).into_iter().collect()
 }
